@@ -245,7 +245,11 @@ does not generate them, core options between task tokens (C18). -/
     PARAMETER of the called task the keyword arguments hold, under the parameter's own name, the intended value — the
     declared start value followed by that parameter's own mentions (and nobody else's), typed by the declared default
     (`intendedStep`; see `intended_values_typed`), hence the declared default when the parameter is not mentioned
-    (`unmentioned_shows_declared_default`). -/
+    (`unmentioned_shows_declared_default`).
+    The registry is a FUNCTION OF THE FINAL SIGNATURES (`Built decls reg`): the order in which the namespace was assembled
+    and inspected (sub-collections attached before or after they are filled, tasks and aliases added after an enclosing
+    collection was already looked at) is not a parameter of the statement — the implementation must therefore hand the
+    parser the same contexts for every assembly history; the harness checks that with incrementally built namespaces. -/
 theorem parse_spelling_from_signatures (ic : Option Ctx) (decls : List TaskDecl) (reg : List Ctx) (ign : Bool)
     (ch : List SCall) (w : SigWorld decls reg) (hok : sigChainOKb ic decls ch = true)
     (hbody : noSentinelB (renderChain decls ch) = true) :
